@@ -111,11 +111,13 @@ func (c *Check) peerManagerContracts(rule string) {
 	if fn := p.Fn("peer.sendTransitionToFSM"); fn != nil {
 		pick := func(s *ssa.Select) bool { return selectCaseOf(s, "transitionCh", true) >= 0 }
 		var sel *ssa.Select
-		ownInstrs(fn, func(x ssa.Instruction) {
-			if s, ok := x.(*ssa.Select); ok && pick(s) {
-				sel = s
-			}
-		})
+		for _, g := range deepFuncs(fn) {
+			ownInstrs(g, func(x ssa.Instruction) {
+				if s, ok := x.(*ssa.Select); ok && pick(s) {
+					sel = s
+				}
+			})
+		}
 		if sel == nil {
 			c.undecided(rule, "peer.sendTransitionToFSM", "grant select", p.Pos(fn.Pos()), "no select sending on transitionCh")
 		} else {
@@ -285,8 +287,52 @@ func (c *Check) serverContracts(rule string) {
 			for _, st := range a.At[cl.(ssa.Instruction)] {
 				n++
 				args := a.argExprs(st, nil, cl.Common())
-				v, isC := st.rangeOf(args[len(args)-1]).IsConst()
-				c.require(isC && v == 1, rule, "Server.Serve", "WaitGroup.Add(1) per accept goroutine", p.InstrPos(cl.(ssa.Instruction)),
+				arg := args[len(args)-1]
+				v, isC := st.rangeOf(arg).IsConst()
+				okAdd := isC && v == 1
+				if !okAdd && arg.Op == "len" && !inLoop(cl.(ssa.Instruction).Block()) {
+					// all of them accounted for up front: Add(len(x)) before a loop
+					// over the same x that starts one goroutine per element
+					for _, sp := range p.spawns() {
+						if p.ownerTop(sp.In) != fn || !inLoop(sp.Instr.Block()) || !everyIteration(sp.Instr) || !instrDominates(cl.(ssa.Instruction), sp.Instr) {
+							continue
+						}
+						h := loopHeadLocal(sp.Instr.Block())
+						if h == nil {
+							continue
+						}
+						sameLen := func(in ssa.Instruction) bool {
+							lc, isL := in.(*ssa.Call)
+							if !isL {
+								return false
+							}
+							bi, isBI := lc.Call.Value.(*ssa.Builtin)
+							if !isBI || bi.Name() != "len" {
+								return false
+							}
+							for _, st2 := range a.At[in] {
+								if a.ExprAt(st2, lc.Call.Args[0]).Key == arg.Args[0].Key {
+									return true
+								}
+							}
+							return false
+						}
+						blocks := []*ssa.BasicBlock{h}
+						for _, pr := range h.Preds {
+							if !h.Dominates(pr) {
+								blocks = append(blocks, pr)
+							}
+						}
+						for _, blk := range blocks {
+							for _, in := range blk.Instrs {
+								if sameLen(in) {
+									okAdd = true
+								}
+							}
+						}
+					}
+				}
+				c.require(okAdd, rule, "Server.Serve", "WaitGroup.Add(1) per accept goroutine", p.InstrPos(cl.(ssa.Instruction)),
 					"each go statement is preceded by Add(1): a larger count makes Wait (and Close) hang, a smaller one panics or returns early")
 			}
 		}
@@ -962,7 +1008,32 @@ func (c *Check) accumulatorsStartEmpty(rule string, fns ...string) {
 							switch x := v.(type) {
 							case *ssa.MakeSlice:
 								cst, isC := x.Len.(*ssa.Const)
-								return isC && cst.Value != nil && cst.Int64() == 0
+								if !isC || cst.Value == nil {
+									return false
+								}
+								if cst.Int64() == 0 {
+									return true
+								}
+								// a fixed prefix written out element by element before
+								// the loop (a header the loop appends the body to)
+								written := map[int64]bool{}
+								for _, r := range *x.Referrers() {
+									if ia, isIA := r.(*ssa.IndexAddr); isIA {
+										if k, isK := ia.Index.(*ssa.Const); isK && k.Value != nil {
+											for _, rr := range *ia.Referrers() {
+												if st, isS := rr.(*ssa.Store); isS && st.Addr == ssa.Value(ia) && st.Block().Dominates(b) {
+													written[k.Int64()] = true
+												}
+											}
+										}
+									}
+								}
+								for k := int64(0); k < cst.Int64(); k++ {
+									if !written[k] {
+										return false
+									}
+								}
+								return cst.Int64() <= 16
 							case *ssa.Const:
 								return x.IsNil()
 							case *ssa.Slice:
